@@ -128,6 +128,8 @@ def plan_terms(s, term, td, phase_done):
     if k == "struct":
         ok = True
         for i, f in enumerate(td["fields"]):
+            if f["type"]["kind"] == "zero":
+                continue
             ok = plan_terms(s, "(%s_f%d %s)" % (td["sort"], i, term), f["type"], phase_done) and ok
         return ok
     if k == "ptr":
@@ -169,7 +171,7 @@ def render(s, term, td):
         els = [render(s, "(%s %s %s %d)" % (td["selem"], td["eheap"], term, i), td["elem"]) for i in range(n)]
         return "%s{%s}" % (td["go"], ", ".join(els))
     if k == "struct":
-        fs = ["%s: %s" % (f["name"], render(s, "(%s_f%d %s)" % (td["sort"], i, term), f["type"])) for i, f in enumerate(td["fields"])]
+        fs = ["%s: %s" % (f["name"], render(s, "(%s_f%d %s)" % (td["sort"], i, term), f["type"])) for i, f in enumerate(td["fields"]) if f["type"]["kind"] != "zero"]
         return "%s{%s}" % (td["go"], ", ".join(fs))
     if k == "ptr":
         if s.val(term) == 0:
